@@ -230,6 +230,71 @@ pub fn generate(s: &mut Session, thorough: bool) -> bool {
         }
         check_event(s, &mut rng, &mut cx, "small-malformed", run, &banks);
     }
+    // (ii-b) duplicated banks of mixed kinds, systematically: the outcome must not depend on which
+    // copy comes first (a duplicate check that only remembers banks carrying usable data, or a
+    // first-wins rule among chunks with the same id, is order dependent)
+    for (k, &run) in [u32::MAX, 11084, 9277].iter().enumerate() {
+        for rep in 0..(if thorough { 6 } else { 1 }) {
+            let spec = c10::small_spec(&mut rng, run);
+            let base = c10::spec_banks(&mut rng, &spec);
+            let d = hooks::wire_delay(run).unwrap_or(100);
+            let (b, ch) = ((k + rep) % 8, rng.below(32) as u8);
+            let name = c10::c_name(&a16[b].0, ch);
+            let full = |rng: &mut Rng, n: usize| -> Vec<u8> {
+                let wv: Vec<i16> = (0..n).map(|_| rng.next() as i16 >> 3).collect();
+                c10::adc_bytes(rng, a16[b].1, 128 + ch, &wv)
+            };
+            let kinds: Vec<(&str, Vec<u8>)> = vec![
+                ("full", full(&mut rng, d + 40)),
+                ("full2", full(&mut rng, d + 40)),
+                ("short", full(&mut rng, d.max(64))),
+                ("suppressed", c10::adc_short(&mut rng, 128 + ch)),
+            ];
+            for i in 0..kinds.len() {
+                for j in i..kinds.len() {
+                    if kinds[i].0 == "full2" && kinds[j].0 == "full2" {
+                        continue;
+                    }
+                    let mut banks: Banks = base.iter().filter(|(n, _)| *n != name).cloned().collect();
+                    banks.insert(rng.below(banks.len() as u64 + 1) as usize, (name.clone(), kinds[i].1.clone()));
+                    banks.insert(rng.below(banks.len() as u64 + 1) as usize, (name.clone(), kinds[j].1.clone()));
+                    check_event(s, &mut rng, &mut cx, "duplicate-wire-bank-kinds", run, &banks);
+                }
+            }
+            // duplicated chunk id with identical or different (CRC-valid) content
+            if let Some(p) = spec.pads.first() {
+                let boards = c10::pwb_boards();
+                let (bname, mac, dev) = (boards[p.board].0.clone(), boards[p.board].1, boards[p.board].2);
+                let pc = c10::pc_name(&bname);
+                let pay1 = c10::pwb_payload(&mut rng, mac, b'A' + p.chip, p.req, &p.sent);
+                let mut other = p.sent.clone();
+                for (_, w) in other.iter_mut() {
+                    for x in w.iter_mut() {
+                        *x = x.wrapping_add(7);
+                    }
+                }
+                let pay2 = c10::pwb_payload(&mut rng, mac, b'A' + p.chip, p.req, &other);
+                let size = (pay1.len() / 3).max(60);
+                let c1 = c10::chunk_banks(&mut rng, &pc, &pay1, size, dev, p.chip);
+                let c2 = c10::chunk_banks(&mut rng, &pc, &pay2, size, dev, p.chip);
+                for which in 0..c1.len().min(c2.len()) {
+                    for same in [true, false] {
+                        let mut banks: Banks = base.iter().filter(|(n, _)| !n.starts_with("PC")).cloned().collect();
+                        banks.extend(c1.iter().cloned());
+                        let extra = if same { c1[which].clone() } else { c2[which].clone() };
+                        banks.insert(rng.below(banks.len() as u64 + 1) as usize, extra);
+                        check_event(s, &mut rng, &mut cx, "duplicate-chunk-id", run, &banks);
+                    }
+                }
+            }
+            // two TRG banks with different timestamps
+            {
+                let mut banks = base.clone();
+                banks.insert(rng.below(banks.len() as u64 + 1) as usize, ("ATAT".to_string(), c10::trg_bytes(&mut rng, 12345)));
+                check_event(s, &mut rng, &mut cx, "duplicate-trg", run, &banks);
+            }
+        }
+    }
     // (iii) the same pad delivered by two packets, one of them empty after the delay: the answers
     // of 24 repetitions are collected (the model lists its answers over two group orders)
     for run in [u32::MAX, 11084] {
